@@ -29,6 +29,7 @@ func C10(c *Ctx) {
 	r.Rule("C10/R5", "verification cannot stay switched off after reinit", 2)
 	r.Rule("C10/R6", "step binding by payload: each DKG contribution request is valid only with its own step's non-empty field (the event name is not signed, F-C10-2, so this is what keeps a message of another step from being accepted as this step's)", 4)
 	r.Rule("C10/R7", "the sender named in a message is authenticated: effects only behind verifyMessage, which accepts only a valid ed25519 signature under the key registered for message.SenderAddr (= C09/R1, C09/R2)", 12)
+	r.Rule("C10/R8", "the unsigned reinit path is confined to the round it is posted for: reinitDKG acts only if the body's dkg_id is non-empty and equals the envelope's round id, and replays (without signature checks) only embedded messages of that round", 3)
 	nonEmptyContributionAs(c, "C10/R6")
 	c10SenderBinding(c)
 	c10Envelope(c)
@@ -55,6 +56,7 @@ func C10(c *Ctx) {
 	for _, o := range r.Obs[before:] {
 		o.Rule = "C10/R5"
 	}
+	c10ReinitConfined(c)
 	// R7: the binding to the sender means something only if the sender's signature is checked: reuse C09/R1 (no effect
 	// before verification) and C09/R2 (verifyMessage accepts only a valid signature by the sender's registered key)
 	before = len(r.Obs)
@@ -195,4 +197,81 @@ func c10Envelope(c *Ctx) {
 	r.Check(covered["Data"], "C10/R2", "storage.(*Message).Bytes:covers:Data", "the signature covers the payload", c.Pos(fn.Pos()), "Data not covered")
 	r.Check(covered["Event"] && covered["DkgRoundID"], "C10/R2", "storage.(*Message).Bytes:covers:Event+DkgRoundID", "the signature covers the event name and the round identifier", c.Pos(fn.Pos()),
 		sprintf("signed bytes = Data only (Event covered=%v, DkgRoundID covered=%v): confirm/decline share one request type, the four DKG error events share one, and any round with the same keys accepts the same bytes — a genuine message copied into another round or re-posted under another event name verifies", covered["Event"], covered["DkgRoundID"]))
+}
+
+
+// c10ReinitConfined: reinitDKG is reached without any signature check (C09 exempts the reinit message, which is confirmed
+// out of band for ITS round). It must not be able to touch another round: the body's dkg_id is tested non-empty and equal
+// to the envelope's DkgRoundID before any effect, and an embedded message is replayed only if it belongs to that round.
+func c10ReinitConfined(c *Ctx) {
+	r := c.R
+	fn := c.Fn("C10/R8", pkgNode, "BaseNodeService", "reinitDKG")
+	if fn == nil {
+		return
+	}
+	isEffect := func(f *ssa.Function) bool { return isDurableSink(f) || isFSMDo(f) }
+	var effects []ssa.CallInstruction
+	var replays []ssa.CallInstruction
+	for _, call := range ssax.Calls(fn, false, func(ssa.CallInstruction) bool { return true }) {
+		if _, isDefer := call.(*ssa.Defer); isDefer {
+			continue
+		}
+		if o := ssax.CalleeObj(call); o != nil && o.Name() == "processMessage" {
+			replays = append(replays, call)
+		}
+		if _, ok := c.siteReaches(call, isEffect); ok {
+			// reading whether the round exists is not an effect
+			if o := ssax.CalleeObj(call); o != nil && (o.Name() == "IsExist") {
+				continue
+			}
+			effects = append(effects, call)
+		}
+	}
+	isBodyID := func(p string) bool { return p == "json(message.Data).DKGID" }
+	var same, sameMsg []ssax.Edge
+	for _, cd := range ssax.Conds(fn) {
+		if cd.Op != token.EQL && cd.Op != token.NEQ {
+			continue
+		}
+		a, b := npath(cd.X), npath(cd.Y)
+		e, _ := cd.EdgeWhere(token.EQL)
+		if (isBodyID(a) && b == "message.DkgRoundID") || (isBodyID(b) && a == "message.DkgRoundID") {
+			same = append(same, e)
+		}
+		isEmb := func(p string) bool {
+			return strings.HasPrefix(p, "json(message.Data).Messages[") && strings.HasSuffix(p, ".DkgRoundID")
+		}
+		if (isEmb(a) && (isBodyID(b) || b == "message.DkgRoundID")) || (isEmb(b) && (isBodyID(a) || a == "message.DkgRoundID")) {
+			sameMsg = append(sameMsg, e)
+		}
+	}
+	okSame := len(same) > 0 && len(effects) >= 3
+	where := ""
+	for _, e := range effects {
+		if ssax.ReachableAvoiding(fn, e.(ssa.Instruction), same, nil) {
+			okSame, where = false, callName(e)+" at "+c.PosOf(e.(ssa.Instruction))
+		}
+	}
+	r.Check(okSame, "C10/R8", "node.reinitDKG:own-round-only", "reinitDKG acts only when the body's dkg_id equals the envelope's round id", c.Pos(fn.Pos()),
+		sprintf("%d equality tests between json(message.Data).DKGID and message.DkgRoundID, %d effect calls; %s is reachable without passing one: an unsigned reinit message posted for one round replaces the stored state of another, existing round", len(same), len(effects), where))
+	empty := emptyEdges(fn, isBodyID)
+	okEmpty := len(empty) > 0
+	for _, ee := range empty {
+		dest := ee.From.Succs[ee.Succ]
+		for _, e := range effects {
+			if len(dest.Instrs) > 0 && (dest.Instrs[0] == e.(ssa.Instruction) || ssax.ReachableFrom(fn, dest.Instrs[0], e.(ssa.Instruction), nil, nil)) {
+				okEmpty = false
+			}
+		}
+	}
+	r.Check(okEmpty, "C10/R8", "node.reinitDKG:round-id-not-empty", "a reinit message without a round id is refused before any effect", c.Pos(fn.Pos()),
+		"no test of json(message.Data).DKGID against the empty string that keeps the effects from running: the embedded messages are replayed with verification off and saved although the message is finally refused")
+	okReplay := len(replays) == 1 && len(sameMsg) > 0
+	for _, rp := range replays {
+		if ssax.ReachableAvoiding(fn, rp.(ssa.Instruction), sameMsg, nil) {
+			okReplay = false
+		}
+	}
+	r.Check(okReplay, "C10/R8", "node.reinitDKG:replay-own-round-only", "an embedded message is replayed (signature checks off) only if it belongs to the round being reinitialized", c.Pos(fn.Pos()),
+		sprintf("%d replay calls, %d tests of the embedded message's DkgRoundID against the reinitialized round; the replay is reachable without one: forged messages for other, live rounds are applied without any signature check", len(replays), len(sameMsg)))
 }
